@@ -309,6 +309,24 @@ def run(repo, rep, tier):
                 f"traversal returns immediately, so an aggregator installed at two positions is filled twice, undetected",
                 path=f"{f.qualname}: visit #2 of the same node -> `{norm(tn.stmt)}` is False -> return",
             )
+        if raises and not bad:
+            # the identity test sees every visit: then a template (never filled, legitimately shared by two sparse containers, and listed
+            # by `children`) must not be walked like a fillable node, or every tree with a shared template is rejected
+            from ..model import build_models as _bm2
+            _models = _bm2(repo)
+            listing = []
+            for c0 in primitives(repo)[0]:
+                m0 = _models[c0.name]
+                ch = repo.lookup(c0, "children") if m0.template else None
+                if ch is not None and hasattr(ch, "node") and any(isinstance(x, ast.Attribute) and x.attr == m0.template for x in ast.walk(ch.node)):
+                    listing.append(c0.name)
+            walks_children = any(isinstance(x, ast.Attribute) and x.attr == "children" for x in ast.walk(f.node))
+            okt = not (listing and walks_children)
+            r3.ob(okt, f"{f.qualname}: shared templates are not rejected by the every-visit identity test")
+            if not okt:
+                rep.finding("R16.3", f, t.stmt, f"the identity test `{norm(t.stmt)}` now runs on every visit, and the walk follows `children`, which lists the bin templates of "
+                            f"{listing}: a template object shared by two sparse containers (both built with the default value, or h next to h.zero()) is met "
+                            f"twice in one traversal and the tree is rejected although no fillable node is shared", stmt="shared templates rejected by the identity test")
 
 
 def walk_order_and_entries(repo, rep, cont):
